@@ -213,13 +213,13 @@ PROPS["C17"] = {
              "every ParseError span lies inside the source on char boundaries",
     "harnesses": [
         H("h_c17_spans", shards={"quick": shard_product(("group", 3), ("pad", 3), ("fragment", 2), ("lead", 2)), "thorough": shard_product(("group", 3), ("pad", 3), ("fragment", 2), ("lead", 2))}),
-        H("h_c17_spellings", shards={"quick": shard_product(("sv", 5), ("st", 5)), "thorough": shard_product(("sv", 5), ("st", 5), ("before", 2))}),
+        H("h_c17_spellings", shards={"quick": ["sv=%d;st=%d" % (i, (i + k) % 5) for i in range(5) for k in (0, 2)], "thorough": shard_product(("sv", 5), ("st", 5), ("before", 2))}),
         H("h_c17_error_spans", shards={"quick": shard_choose("k", 11), "thorough": shard_choose("k", 11)}),
         H("h_c17_cdata_edges", shards={"quick": shard_choose("k", 4), "thorough": shard_choose("k", 4)}),
     ],
     "bounds": {"quick": "one document template containing every span kind (prefixed element, 2 attributes, text, comment, PI, "
                         "text+CDATA+text run, empty element), contents symbolic two at a time (1 char each), 3 offset shifts, parse and "
-                        "parse_fragment; attribute value and text spelled with an entity, character references, CR LF before / after a symbolic char "
+                        "parse_fragment; attribute value and text spelled with an entity, character references, CR LF before / after a symbolic char (quick: 10 of the 25 spelling pairs) "
                         "(span = raw spelling, node = decoded value, neighbouring spans unaffected); 11 error templates x 3 shifts; text made of CDATA sections (content empty or one symbolic char) alone, first or last in its run", "thorough": "same"},
     "outside": "documents other than the templates",
     "assumptions": [],
@@ -270,6 +270,7 @@ PROPS["C08"] = {
         H("h_c08_index_round_trip"),
         H("h_c08_interning", {"LEN": 2}, {"LEN": 3}, shards={"quick": shard_product(("table", 3), ("l1", 2)), "thorough": shard_product(("table", 3), ("l1", 3))}),
         H("h_c08_builtins_and_parse"),
+        H("h_c08_parsed_names", shards={"quick": shard_choose("order", 2), "thorough": shard_choose("order", 2)}),
         H("h_c08_html5"),
     ],
     "bounds": {"quick": "index lemma: all 2^64 indices per id type; interning: 3 registrations of arbitrary strings of <=1 char (thorough <=2) "
